@@ -63,7 +63,7 @@ var properties = map[string]*propDef{
 		NotDecided:  "header bytes, chunk lengths, variable-length quantities and data-byte masking: gomidi, trusted.",
 	},
 	"C09": {
-		Rules:     []string{"EXIT", "EOFPRED", "NILOK", "VALIDATE", "REJECT", "MUST", "RECUR", "ERRDROP", "FLAGS", "NARROW", "LOOKUP", "DEBUGOUT", "PLAYLOOP", "APPLY", "CONC", "SELECT", "SCALEWIRE", "CLASSIFY", "PARSEERR"},
+		Rules:     []string{"EXIT", "EOFPRED", "NILOK", "VALIDATE", "REJECT", "MUST", "RECUR", "ERRDROP", "FLAGS", "NARROW", "LOOKUP", "DEBUGOUT", "PLAYLOOP", "APPLY", "CONC", "SELECT", "SCALEWIRE", "CLASSIFY", "PARSEERR", "TAB-REGEX"},
 		Technique: "inventory and path rules over every site of a failure class: exit status, loop predicates at EOF, decode-without-validate, (nil,true) lookups, panicking wrappers on untrusted data, recursion cycles, dropped errors",
 		Explanation: "seven failure classes, each for every site in the program: a failed Execute reaches os.Exit(non-zero); every NextWhile/DiscardWhile predicate folds to false at EOF; every decoder/constructor of a validated type validates before returning nil and each validator refuses the documented nonsense (0 durations, tempo 0, unknown dynamic, no durations); no lookup returns (nil, true); every function that can panic is in a reviewed inventory and every call site of a Must* wrapper is an initialiser, constant, or reviewed with a checked invariant; every call-graph cycle and condition-only loop has a reviewed termination measure (cyclic `extends` is rejected by validate, checked structurally); no error of a repo function or of yaml/io/os decoding is discarded; unknown chords, unknown keys, mixed notation and syntax errors are errors before anything is produced.",
 		NotDecided:  "absence of implicit run-time panics in general (index, nil, division); `promptly` as a quantitative statement; the behaviour of cobra / yaml.v3 on malformed flags or YAML.",
